@@ -204,7 +204,7 @@ def run_case(project, group, targets, kind, desc, rel, edit, baseline):
         return dict(group=group, kind=kind, desc=desc, outcome="EDIT-FAILED: %s" % ex, ok=False, secs=0.0)
     assert mutated != original, desc
     try:
-        code = pyast2lean.generate(REPO, overrides={rel: mutated})
+        code = pyast2lean.generate(REPO, overrides={rel: mutated}, strict=True)
     except pyast2lean.Untranslatable as ex:
         outcome = "untranslatable: %s" % ex.reason[:70]
         return dict(group=group, kind=kind, desc=desc, outcome=outcome, ok=(kind == S), secs=time.time() - t0)
